@@ -39,6 +39,19 @@ def step (args : List String) : String :=
       let s2 := match r2 with | .ok v => s!"ok {C04.showVal v}" | .error e => showErr e
       s!"{s1} | {stored} | {s2} | {loc}"
     | _, _, _, _, _ => "bad-op"
+  | ["shared", od, idx, sub, t, v] =>
+    -- two local nodes built from ONE dictionary object: a value written to the first must not show on the second
+    match C02.parseOd od, idx.toNat?, sub.toNat?, C04.parseType t, C02.parseVal v with
+    | some od, some idx, some sub, some t, some (some v) =>
+      let n0 := C02.mkNode od []
+      let cA : Chan (Srv × Node) := { peer := (srvInit, n0), queue := [], sent := [] }
+      let cB : Chan (Srv × Node) := { peer := (srvInit, n0), queue := [], sent := [] }
+      let (_, r1) := remoteSet cA idx sub t v
+      let (_, r2) := remoteGet cB idx sub t 100000
+      let s1 := match r1 with | .ok _ => "ok" | .error e => showErr e
+      let s2 := match r2 with | .ok v => s!"ok {C04.showVal v}" | .error e => showErr e
+      s!"{s1} | {s2}"
+    | _, _, _, _, _ => "bad-op"
   | _ => "bad-op"
 
 end Canopen.Driver.C03
